@@ -130,3 +130,61 @@ func init() {
 		},
 	})
 }
+
+// c15LockExclusive: (*Pipestance).Lock creates the lock file with an
+// os.OpenFile call whose flag argument contains both os.O_CREATE and os.O_EXCL
+// (atomic test-and-set by the OS).  False when no such call exists (e.g. the
+// lock is written with os.WriteFile after an existence check).
+func init() {
+	addFact(fact{
+		name:   "c15LockExclusive",
+		leanTy: "Bool",
+		deflt:  "true",
+		extract: func(repo string) (string, interface{}, error) {
+			fset, f, err := parseFile(repo, "martian/core/pipestance.go")
+			if err != nil {
+				return "", nil, err
+			}
+			_ = fset
+			fd := findMethod(f, "Pipestance", "Lock")
+			if fd == nil {
+				return "", nil, fmt.Errorf("(*Pipestance).Lock not found")
+			}
+			found, excl := false, false
+			var flags []string
+			ast.Inspect(fd.Body, func(n ast.Node) bool {
+				call, ok := n.(*ast.CallExpr)
+				if !ok {
+					return true
+				}
+				sel, ok := call.Fun.(*ast.SelectorExpr)
+				if !ok || sel.Sel.Name != "OpenFile" || len(call.Args) < 2 {
+					return true
+				}
+				if pk, ok := sel.X.(*ast.Ident); !ok || pk.Name != "os" {
+					return true
+				}
+				found = true
+				flags = nil
+				ast.Inspect(call.Args[1], func(m ast.Node) bool {
+					if s, ok := m.(*ast.SelectorExpr); ok {
+						flags = append(flags, s.Sel.Name)
+					}
+					return true
+				})
+				hasC, hasX := false, false
+				for _, fl := range flags {
+					hasC = hasC || fl == "O_CREATE"
+					hasX = hasX || fl == "O_EXCL"
+				}
+				excl = excl || (hasC && hasX)
+				return true
+			})
+			js := map[string]interface{}{"os.OpenFile_in_Lock": found, "flags": flags}
+			if found && excl {
+				return "true", js, nil
+			}
+			return "false", js, nil
+		},
+	})
+}
